@@ -400,31 +400,9 @@ Qed.
 Lemma mul64_lxor_r a b b' : mul64 a (N.lxor b b') = fe_xor (mul64 a b) (mul64 a b').
 Proof. rewrite !(mul64_comm a). apply mul64_lxor_l. Qed.
 
-(* polyvalDot = reduce (Karatsuba product) *)
-Definition kara (a b : fe) : fe * fe :=
-  let r0 := mul64 (fst a) (fst b) in
-  let r1 := mul64 (snd a) (snd b) in
-  let mid := mul64 (N.lxor (fst a) (snd a)) (N.lxor (fst b) (snd b)) in
-  let mlo := N.lxor (fst mid) (N.lxor (fst r0) (fst r1)) in
-  let mhi := N.lxor (snd mid) (N.lxor (snd r0) (snd r1)) in
-  ((fst r0, N.lxor (snd r0) mlo), (N.lxor (fst r1) mhi, snd r1)).
-
-Definition reduce (r0 r1 : fe) : fe :=
-  let r0lo := fst r0 in
-  let r0hi := N.lxor (snd r0) (N.lxor (N.lxor (shlw r0lo 63) (shlw r0lo 62)) (shlw r0lo 57)) in
-  let r1lo := N.lxor (fst r1) r0lo in
-  let r1hi := N.lxor (snd r1) r0hi in
-  let r1lo := N.lxor r1lo (N.shiftr r0lo 1) in
-  let r1lo := N.lxor r1lo (shlw r0hi 63) in
-  let r1hi := N.lxor r1hi (N.shiftr r0hi 1) in
-  let r1lo := N.lxor r1lo (N.shiftr r0lo 2) in
-  let r1lo := N.lxor r1lo (shlw r0hi 62) in
-  let r1hi := N.lxor r1hi (N.shiftr r0hi 2) in
-  let r1lo := N.lxor r1lo (N.shiftr r0lo 7) in
-  let r1lo := N.lxor r1lo (shlw r0hi 57) in
-  let r1hi := N.lxor r1hi (N.shiftr r0hi 7) in
-  (r1lo, r1hi).
-
+(* polyvalDot = pv_reduce (pv_karatsuba ...) by definition *)
+Notation kara := pv_karatsuba.
+Notation reduce := pv_reduce.
 Lemma polyvalDot_eq a b : polyvalDot a b = reduce (fst (kara a b)) (snd (kara a b)).
 Proof. reflexivity. Qed.
 
@@ -433,7 +411,7 @@ Definition fe2_xor (x y : fe * fe) : fe * fe := (fe_xor (fst x) (fst y), fe_xor 
 Lemma kara_lxor_l a a' b : kara (fe_xor a a') b = fe2_xor (kara a b) (kara a' b).
 Proof.
   destruct a as [alo ahi], a' as [clo chi], b as [blo bhi]. rewrite fe_xor_pair.
-  unfold kara, fe2_xor. cbn [fst snd].
+  unfold pv_karatsuba, fe2_xor. cbn [fst snd].
   replace (N.lxor (N.lxor alo clo) (N.lxor ahi chi)) with (N.lxor (N.lxor alo ahi) (N.lxor clo chi)) by xor_ac.
   set (am := N.lxor alo ahi). set (cm := N.lxor clo chi). set (bm := N.lxor blo bhi).
   rewrite !mul64_lxor_l.
@@ -444,7 +422,7 @@ Qed.
 
 Lemma kara_comm a b : kara a b = kara b a.
 Proof.
-  unfold kara. rewrite (mul64_comm (fst a)), (mul64_comm (snd a)), (mul64_comm (N.lxor (fst a) (snd a))). reflexivity.
+  unfold pv_karatsuba. rewrite (mul64_comm (fst a)), (mul64_comm (snd a)), (mul64_comm (N.lxor (fst a) (snd a))). reflexivity.
 Qed.
 
 Lemma kara_lxor_r a b b' : kara a (fe_xor b b') = fe2_xor (kara a b) (kara a b').
@@ -453,7 +431,7 @@ Proof. rewrite !(kara_comm a). apply kara_lxor_l. Qed.
 Lemma reduce_lxor r0 r1 s0 s1 :
   reduce (fe_xor r0 s0) (fe_xor r1 s1) = fe_xor (reduce r0 r1) (reduce s0 s1).
 Proof.
-  destruct r0, r1, s0, s1. unfold reduce, fe_xor. cbn [fst snd].
+  destruct r0, r1, s0, s1. unfold pv_reduce, fe_xor. cbn [fst snd].
   repeat (rewrite shlw_lxor || rewrite N.shiftr_lxor). f_equal; xor_ac.
 Qed.
 
@@ -592,6 +570,52 @@ Proof.
   intros H. unfold range128. rewrite <- (Nnat.N2Nat.id i). apply in_map. apply in_seq. lia.
 Qed.
 
-Definition basis_check : bool :=
-  forallb (fun i => forallb (fun j => N.eqb (dot_impl (2 ^ i) (2 ^ j)) (dot_spec (2 ^ i) (2 ^ j))) range128) range128.
 
+(* the specification on monomials depends only on the sum of the exponents *)
+Lemma clmul_pow2 a j : clmul a (2 ^ j) = N.shiftl a j.
+Proof.
+  induction j using N.peano_ind.
+  - simpl. rewrite N.shiftl_0_r. reflexivity.
+  - rewrite N.pow_succ_r', <- N.double_spec, clmul_double, IHj, N.double_spec.
+    rewrite <- N.add_1_r, <- N.shiftl_shiftl, (N.shiftl_mul_pow2 _ 1). change (2 ^ 1) with 2. lia.
+Qed.
+
+Definition spec_mono (s : N) : N := gf_mul (pmod_fuel 128 (2 ^ s)) xinv128.
+
+Lemma dot_spec_mono i j : dot_spec (2 ^ i) (2 ^ j) = spec_mono (i + j).
+Proof.
+  unfold dot_spec, spec_mono, gf_mul at 2. rewrite clmul_pow2, N.shiftl_mul_pow2, <- N.pow_add_r. reflexivity.
+Qed.
+
+Definition mono_table : list N := map (fun s => spec_mono (N.of_nat s)) (seq 0 255).
+
+Definition basis_check : bool :=
+  let t := mono_table in
+  forallb (fun i => forallb (fun j => N.eqb (dot_impl (2 ^ i) (2 ^ j)) (nth (N.to_nat (i + j)) t 0)) range128) range128.
+
+Lemma basis_ok : basis_check = true.
+Proof. vm_compute. reflexivity. Qed.
+
+Lemma mono_table_nth s : s < 255 -> nth (N.to_nat s) mono_table 0 = spec_mono s.
+Proof.
+  intros H. unfold mono_table.
+  transitivity (nth (N.to_nat s) (map (fun s0 => spec_mono (N.of_nat s0)) (seq 0 255))
+                    ((fun s0 => spec_mono (N.of_nat s0)) 0%nat)).
+  - apply nth_indep. rewrite map_length, seq_length. lia.
+  - rewrite (map_nth (fun s0 => spec_mono (N.of_nat s0))). rewrite seq_nth by lia.
+    rewrite Nat.add_0_l, Nnat.N2Nat.id. reflexivity.
+Qed.
+
+(* for every pair of 128-bit field elements the kernels compute dot(a, b) = a*b*x^-128 of RFC 8452 *)
+Theorem dot_impl_spec : forall a b, a < 2 ^ 128 -> b < 2 ^ 128 -> dot_impl a b = dot_spec a b.
+Proof.
+  apply bilinear_ext.
+  - exact dot_impl_lin_l.
+  - exact dot_impl_lin_r.
+  - intros b x y. apply dot_spec_lxor_l.
+  - intros a x y. apply dot_spec_lxor_r.
+  - intros i j Hi Hj. pose proof basis_ok as H. unfold basis_check in H. cbv zeta in H.
+    rewrite forallb_forall in H. specialize (H i (range128_In i Hi)).
+    rewrite forallb_forall in H. specialize (H j (range128_In j Hj)).
+    apply N.eqb_eq in H. rewrite H, mono_table_nth by lia. symmetry. apply dot_spec_mono.
+Qed.
